@@ -6,11 +6,11 @@ na = {m.group(1): m.group(2) for m in re.finditer(r"^\* \*\*(C\d\d)\*\* (.+)$", 
 hook_commits = subprocess.run(["git", "-C", "/repo", "log", "--format=%H", "--grep=^verif hook"], capture_output=True, text=True).stdout.split()
 CLAIMED = {
  "C07": dict(engine="schedsim", design="DESIGN.md §3",
-   technique="deterministic simulation: real dask get_async driven by a seeded baton scheduler (pool= seam, simulated completion queue, sys.monitoring line/function-entry pre-emption inside wavespectra code, guarded C yield hook, warnings-callback seam for Python entered from inside native code; random-walk, PCT, lockstep+rendezvous+atomicity-probe strategies) with injected duplicate and concurrent-duplicate execution, stalls, two datasets in one compute; greybox probe of module-level state steers intensification; differential oracle against in-memory and synchronous results",
+   technique="deterministic simulation: real dask get_async driven by a seeded baton scheduler (pool= seam, simulated completion queue, sys.monitoring line/function-entry pre-emption inside wavespectra code, guarded C yield hook, warnings-callback seam for Python entered from inside native code; random-walk, PCT, lockstep+rendezvous+atomicity-probe strategies) with injected duplicate and concurrent-duplicate execution, stalls, two datasets in one compute, dask-backed data taken from the library's readers with chunks= (tasks read the file inside the simulated schedule; token seam keeps graph keys a function of the plan), nested computes inside tasks run inline; greybox probe of module-level state steers intensification; differential oracle against in-memory and synchronous results",
    text="Seeded exploration of (dataset, operation, chunking of every dimension, worker count, batching, schedule with pre-emption inside task bodies and fault injection): every simulated compute must succeed and equal the in-memory result (bit-exact or within a reassociation tolerance guarded by a conditioning test) and be bit-identical to the synchronous scheduler on the same graph. Sampling, not enumeration: a clean batch is evidence, not proof.",
    note="Trusted base: numpy/xarray/dask/scipy behave deterministically under PYTHONHASHSEED=0; pre-emption granularity is Python lines inside wavespectra files plus explicit yield points in specpart.c (only when the GIL is released); dependencies run atomically under the baton."),
  "C18": dict(engine="histsim", design="DESIGN.md §4.2",
-   technique="deterministic simulation of seeded call/edit/native/reader/construct histories in a forked child, freshness oracle = same call on a freshly constructed object (same contents and memory layout) in a pristine forked reference process (bit-exact), Dataset-accessor vs efth-accessor agreement, greybox probe of module-level and process-global state triggering a battery of extra observed calls; histories with short-lived working sets (churn) run in a newly started interpreter with ASLR off so that address reuse replays exactly",
+   technique="deterministic simulation of seeded call/edit/native/reader/construct histories in a forked child, freshness oracle = same call on a freshly constructed object (same contents and memory layout) in a pristine forked reference process (bit-exact), Dataset-accessor vs efth-accessor agreement, exported files observed through their reader against a pristine process writing a fresh object, greybox probe of module-level and process-global state triggering a battery of extra observed calls; histories with short-lived working sets (churn) run in a newly started interpreter with ASLR off so that address reuse replays exactly",
    text="Seeded exploration of histories (accessor calls, failing calls, in-place edits, native watershed calls on same-product shapes, reader helpers) over persistent objects; after every value-returning step the value must equal, bit for bit, what a pristine process returns for the same call on a fresh object with the same present contents and memory layout.",
    note="Trusted base: fork() gives a pristine copy of a zygote that only imported the libraries; allocation history does not perturb numpy/scipy results (probed); memory layout of the fresh object is reproduced because layout independence is another property (C05)."),
  "C17": dict(engine="histsim", design="DESIGN.md §4.3",
@@ -18,7 +18,7 @@ CLAIMED = {
    text="Seeded exploration: before every step a deep snapshot (whole backing buffers incl. guard zones of views, strides, dims order, coords, attrs, encodings, names, argument lists/dicts/arrays) is taken and compared after the step whether it returned, raised (argument errors, injected EIO/ENOSPC/torn write/error on close in writers) or ran deferred on a simulated thread pool.",
    note="Trusted base: snapshot covers numpy-backed buffers and dask graph identity (dask-backed values are covered through their numpy source buffers); the simulated raw file layer sits under the real Buffered/Text/gzip/netcdf3 stack."),
  "C11": dict(engine="fssim", design="DESIGN.md §5",
-   technique="deterministic simulation of writer -> simulated file system -> reader histories (store semantics: a read returns the last acknowledged write) with seeded knobs (ntime chunking, gzip, buffer and text-chunk size, lon/lat as coords/vars/args), overwrites, stale siblings, injected raw-layer I/O faults (EIO, ENOSPC, torn and short writes, error on close, short reads) and simulator-decided finalizer timing of aborted writes; a fault-free writer refusal of an in-scope dataset is a violation; per-format resolution oracle",
+   technique="deterministic simulation of writer -> simulated file system -> reader histories (store semantics: a read returns the last acknowledged write) with seeded knobs (ntime chunking, gzip, buffer and text-chunk size, lon/lat as coords/vars/args), overwrites, stale siblings, the same dataset object edited in place and exported again, readers entered by path / xarray engine / file object / pathlib, injected raw-layer I/O faults (EIO, ENOSPC, torn and short writes, error on close, short reads) and simulator-decided finalizer timing of aborted writes; a fault-free writer refusal of an in-scope dataset is a violation; per-format resolution oracle",
    text="Seeded exploration of write/overwrite/read histories per format within each writer/reader pair's documented scope; a read of a path must return the dataset of the last acknowledged write to the format's numeric resolution, each spectrum at the position it was written from; injected faults may make a write raise but never be acknowledged with wrong content.",
    note="Trusted base: per-format tolerance derived from the format's printed precision; netCDF4/h5netcdf are not installed so wavespectra netCDF is exercised as NETCDF3 only; clock and RNG are pinned."),
 }
